@@ -1,6 +1,6 @@
 """C12 — field ranges (--nth, --with-nth, {N}) select exactly the designated fields."""
 ID = "C12"
-EXTRA_PROPS = ["FieldFnsTables", "ItemFnsTables"]
+EXTRA_PROPS = ["FieldFnsTables", "ItemFnsTables", "C12Translated"]
 SUBMODULES = ["c12cli"]   # the field cases of the pty stream: {N} placeholders under -d / --with-nth at the Model's call sites   # translate_neg / to_index_pair as TRANSLATED from src/field.rs = the model's functions (Props/FieldFnsTables.lean)
 N_QUICK, N_THOROUGH = 6000, 400000
 RULE = ("lines assembled from fields (empty, ASCII, 2/3/4-byte characters) and instances of the delimiter regex "
@@ -279,3 +279,5 @@ LEVEL_TEXT = ("Theorems c12_* prove, for every line, every delimiter match list 
               "and the real `sk --filter` binary on a sample of the thorough tier.")
 LEVEL_NOTE = ("Trusted: Lean kernel + propext/Classical.choice/Quot.sound; regex crate and fuzzy-matcher are parameters (contract checked per case); "
               "the hand model of field.rs is tied to the code by the correspondence only; i32 overflow outside the property.")
+
+TECHNIQUE += ' + translator tie: translate_neg / to_index_pair (src/field.rs) and the item glue (src/helper/item.rs) translated and proved equal to the model (Props/FieldFnsTables.lean, ItemFnsTables.lean, C12Translated.lean)'
